@@ -34,3 +34,14 @@ Definition await_release (fid run : N) (status : Z) (e : event) : bool :=
 (* pinned tree: no type check *)
 Definition await_release_orig (fid run : N) (e : event) : bool :=
   negb (filter_by_fid fid e) && negb (filter_by_run run e).
+
+(* await.go awaitWorkflowStatusByForeignID over the sequence of writes published while the caller waits:
+   index of the first write whose event reaches the caller's topic and releases it; -1 = still waiting *)
+Fixpoint await_first (terminal : bool) (fid run : N) (status : Z) (writes : list record) (i : Z) : Z :=
+  match writes with
+  | [] => -1
+  | r :: t =>
+    let o := route 0%N r in
+    if topic_eqb (o_topic o) (await_topic terminal status) && await_release fid run status (event_of_entry 0 0 o)
+    then i else await_first terminal fid run status t (i + 1)
+  end.
